@@ -82,7 +82,10 @@ def check(a):
     assert out.strip() == "", "/repo has uncommitted changes"
     # (the patches were made before later commits to /repo, e.g. the probe hooks: fall back to a 3-way apply)
     rc, out = sh("git -C /repo apply %s/patch.diff || (git -C /repo apply --3way %s/patch.diff && git -C /repo reset -q)" % (dst, dst))
-    assert rc == 0, out
+    if rc != 0:
+        # a failed 3-way apply leaves conflict markers behind: restore the tracked files before giving up
+        sh("git -C /repo reset -q && git -C /repo checkout -- .")
+        raise AssertionError(out)
     results = {}
     try:
         for prop in props:
